@@ -44,7 +44,7 @@ func init() {
 		Quick:      100,
 		Thorough:   4000,
 		Chunk:      5,
-		TimeoutS:   45,
+		TimeoutS:   150,
 		NonTrivial: func(res *Result) bool { return batchNonTrivial(res) && (res.Stats["reach.failing-lines"] > 0 || res.Stats["mode.serial"] > 0) },
 		Rule:       "one batch scenario per evaluation: valid lines mixed with lines of each reported-error class (unknown soil id, unknown field id, texture not in the tables, inconsistent fractions, weather gap, tillage inside the crop, start year mismatch) at random positions, any concurrency, executed by the real dispatcher under the seeded scheduler; every fourth scenario instead carries fertiliser-prediction dates at latitudes -70..70 (termination); non-trivial = at least two runs parked simultaneously; distinct = hash of the decision trace",
 		ReachKeys:  []string{"reach.interleaved", "reach.failing-lines", "fault.permutation"},
